@@ -580,4 +580,5 @@ func c07Spaces(c *fw.Ctx) {
 	c07DryDirectiveSpace(c)
 	c07CutShortSpace(c)
 	c07RdataSpace(c)
+	c07GenerateYieldSpace(c)
 }
